@@ -278,3 +278,93 @@ Definition data_answer (r : res value) : Prop :=
 (* the two programs have exactly the same function-free answers *)
 Definition same_data_meaning (e e' : expr) : Prop :=
   forall rho r, data_answer r -> ((exists n, eval n rho e = r) <-> (exists m, eval m rho e' = r)).
+
+(* ---------- substitution of a let-bound name by its (literal) value ---------- *)
+
+(* the names a pattern binds when it matches *)
+Fixpoint pat_names (p : pat) : list name :=
+  match p with
+  | PVar x => [x]
+  | PWild | PExpr _ => []
+  | PArr items | PSet items => flat_map item_names items
+  | PTup attrs => flat_map (fun a => item_names (snd a)) attrs
+  | PDict entries => flat_map (fun a => item_names (snd a)) entries
+  end
+with item_names (i : pitem) : list name :=
+  match i with
+  | PItem p _ => pat_names p
+  | PExtra (Some x) => [x]
+  | PExtra None => []
+  end.
+
+Definition binds (x : name) (p : pat) : bool := name_in x (pat_names p).
+
+(* subst x v e: every free occurrence of x in e replaced by the literal v.  A binder whose pattern binds x stops
+   the replacement in its body (the occurrences there belong to the inner binding); the expressions inside the
+   pattern itself - (expr) literals, fallbacks, dict keys - are evaluated outside the binding and are replaced. *)
+Fixpoint subst (x : name) (v : val) (e : expr) : expr :=
+  let under := fun (p : pat) (b : expr) => if binds x p then b else subst x v b in
+  match e with
+  | ELit w => ELit w
+  | EVar y => if name_eqb y x then ELit v else EVar y
+  | ESetE l => ESetE (map (subst x v) l)
+  | ETupE l => ETupE (map (fun a => (fst a, subst x v (snd a))) l)
+  | EArrE l => EArrE (map (fun o => match o with Some a => Some (subst x v a) | None => None end) l)
+  | EDictE l => EDictE (map (fun a => (subst x v (fst a), subst x v (snd a))) l)
+  | EBin op a b => EBin op (subst x v a) (subst x v b)
+  | ECmp op a b => ECmp op (subst x v a) (subst x v b)
+  | EUn op a => EUn op (subst x v a)
+  | EWhere a f => EWhere (subst x v a) (subst x v f)
+  | EDArrow a f => EDArrow (subst x v a) (subst x v f)
+  | ESeqArrow w a f => ESeqArrow w (subst x v a) (subst x v f)
+  | EFn p b => EFn (subst_pat x v p) (under p b)
+  | ECall f a => ECall (subst x v f) (subst x v a)
+  | ESafeCall f a d => ESafeCall (subst x v f) (subst x v a) (subst x v d)
+  | EDot a n => EDot (subst x v a) n
+  | ESafeDot a n d => ESafeDot (subst x v a) n (subst x v d)
+  | ELet p e1 e2 => ELet (subst_pat x v p) (subst x v e1) (under p e2)
+  | EArrow e1 f => EArrow (subst x v e1) (subst x v f)
+  | EAnd a b => EAnd (subst x v a) (subst x v b)
+  | EOr a b => EOr (subst x v a) (subst x v b)
+  | ECond arms d => ECond (map (fun a => (subst x v (fst a), subst x v (snd a))) arms)
+                          (match d with Some a => Some (subst x v a) | None => None end)
+  | ECondPat c arms => ECondPat (subst x v c) (map (fun a => (subst_pat x v (fst a), under (fst a) (snd a))) arms)
+  | EJoin op a b => EJoin op (subst x v a) (subst x v b)
+  | ENest inv names n a => ENest inv names n (subst x v a)
+  | ESingleNest n a => ESingleNest n (subst x v a)
+  | ERank a f => ERank (subst x v a) (subst x v f)
+  end
+with subst_pat (x : name) (v : val) (p : pat) : pat :=
+  match p with
+  | PVar y => PVar y
+  | PWild => PWild
+  | PExpr e => PExpr (subst x v e)
+  | PArr items => PArr (map (subst_item x v) items)
+  | PTup attrs => PTup (map (fun a => (fst a, subst_item x v (snd a))) attrs)
+  | PDict entries => PDict (map (fun a => (subst x v (fst a), subst_item x v (snd a))) entries)
+  | PSet items => PSet (map (subst_item x v) items)
+  end
+with subst_item (x : name) (v : val) (i : pitem) : pitem :=
+  match i with
+  | PItem p d => PItem (subst_pat x v p) (match d with Some a => Some (subst x v a) | None => None end)
+  | PExtra o => PExtra o
+  end.
+
+(* a body without binders: no function literal, no let, no pattern conditional *)
+Fixpoint binder_free (e : expr) : bool :=
+  match e with
+  | ELit _ | EVar _ => true
+  | ESetE l => forallb binder_free l
+  | ETupE l => forallb (fun a => binder_free (snd a)) l
+  | EArrE l => forallb (fun o => match o with Some a => binder_free a | None => true end) l
+  | EDictE l => forallb (fun a => binder_free (fst a) && binder_free (snd a)) l
+  | EBin _ a b | ECmp _ a b | EWhere a b | EDArrow a b | ESeqArrow _ a b | ECall a b | EArrow a b
+  | EAnd a b | EOr a b | EJoin _ a b | ERank a b => binder_free a && binder_free b
+  | EUn _ a | EDot a _ | ENest _ _ _ a | ESingleNest _ a => binder_free a
+  | ESafeCall a b c => binder_free a && binder_free b && binder_free c
+  | ESafeDot a _ d => binder_free a && binder_free d
+  | ECond arms d => forallb (fun a => binder_free (fst a) && binder_free (snd a)) arms &&
+                    match d with Some a => binder_free a | None => true end
+  | EFn _ _ | ELet _ _ _ | ECondPat _ _ => false
+  end.
+
